@@ -18,7 +18,12 @@
    numbers / extension names to the real SFTPServerHandler in versions 3..6
    and counts replies per request id, checks their type and that the session
    goes on; OSError / SFTPError raised by an SFTPServer subclass are compared
-   with the table.
+   with the table.  Fault class "the handler succeeded but its result cannot
+   be encoded" (extreme attribute values, wrong types, wrong shapes, real
+   files with pre-epoch / far-future times) x every attrs/name/extended-reply
+   request x v3..6: one reply, success type with a body that an independent
+   decoder parses, or a well-formed FXP_STATUS.  Every reply body of every
+   server case goes through that independent decoder.
 3. specs/SftpAttrs/SftpAttrs.tla (what each version carries): TLC enumerates
    field subsets x version and prints the expected carriage; every case is
    encoded and decoded with the real SFTPAttrs / SFTPName.
@@ -214,12 +219,18 @@ def main(ctx):
             Ops='{"read", "write", "get", "copy"}', SparseSet='{FALSE}',
             MaxAns=2)
         jobs['srv'] = ex.submit(
-            run_tlc, PROTO, 'SftpSrvCases', 'c14_srv', dict(Emit='TRUE'),
+            run_tlc, PROTO, 'SftpSrvCases', 'c14_srv',
+            dict(Emit='TRUE', TypeAfterEncode='TRUE'),
             ['OneReplyOwed', 'DamageIsError', 'CodeInVersion', 'V6Exact',
-             'Table'], workers=1)
+             'WellTypedReply', 'Table'], workers=1)
         jobs['srv_nofilter'] = ex.submit(
-            run_tlc, PROTO, 'SftpSrvCases', 'c14_srvnf', dict(Emit='FALSE'),
-            ['NoFilterOk'], workers=1)
+            run_tlc, PROTO, 'SftpSrvCases', 'c14_srvnf',
+            dict(Emit='FALSE', TypeAfterEncode='TRUE'), ['NoFilterOk'],
+            workers=1)
+        jobs['srv_latch'] = ex.submit(
+            run_tlc, PROTO, 'SftpSrvCases', 'c14_srvlt',
+            dict(Emit='FALSE', TypeAfterEncode='FALSE'), ['WellTypedReply'],
+            workers=1)
         base = dict(Emit='TRUE', AllocGuard='FALSE', PairRule='TRUE')
         jobs['attrs_a'] = ex.submit(
             run_tlc, ATTRS, 'SftpAttrs', 'c14_attrs_a',
@@ -265,6 +276,9 @@ def main(ctx):
     ctx.require_tlc_ok('SftpSrvCases without the version filter (must '
                        'violate NoFilterOk)', res['srv_nofilter'],
                        expect_violation='NoFilterOk')
+    ctx.require_tlc_ok('SftpSrvCases with the reply type fixed before the '
+                       'result is encoded (must violate WellTypedReply)',
+                       res['srv_latch'], expect_violation='WellTypedReply')
     for k in ('attrs_a', 'attrs_b', 'attrs_c', 'attrs_guard'):
         if k in res:
             ctx.require_tlc_ok(f'SftpAttrs {k}', res[k])
@@ -352,6 +366,8 @@ def main(ctx):
     ctx.require(len(table) > 400, f'server table has {len(table)} rows')
     sw = sftp_proto.ServerWorld()
     nsrv = 0
+    unenc = {'skipped': 0}
+    planned = {}
     classes_seen = set()
     try:
         sessions = {}
@@ -396,6 +412,41 @@ def main(ctx):
                     if case['d'] == 'short_frame' and o['alive']:
                         ctx.notes.append(f'v{v} {o["what"]}: session '
                                          f'survived a short frame')
+            elif row[0] == 'unenc':
+                v, t, f, predicted = row[1], row[2], row[3], row[4]
+                legal = set(row[5]['$set'])
+                if v not in sessions:
+                    sessions[v] = sw.session(v)
+                if f in ('real_neg', 'real_far', 'real_dir') and \
+                        not all(sw.real.values()):
+                    unenc['skipped'] += 1
+                    continue
+                sessions[v], o = sftp_proto.unenc_case(
+                    sw, sessions[v], v, t, f, legal)
+                if o.get('skipped'):
+                    unenc['skipped'] += 1
+                    continue
+                nsrv += 1
+                planned[predicted] = planned.get(predicted, 0) + 1
+                unenc[o['sent'] or 'none'] = \
+                    unenc.get(o['sent'] or 'none', 0) + 1
+                ctx.count(('unenc', v, t, f), predicted == 'status_err')
+                if nsrv % 211 == 7:
+                    ctx.sample({'part': 'server-unencodable', 'v': v, 't': t,
+                                'fault': f, 'sent': o['sent'],
+                                'code': o.get('code')})
+                for clause in sorted({c for c, _ in o['l1']}):
+                    text = '; '.join(x for c, x in o['l1'] if c == clause)
+                    violate({'module': 'SftpSrv', 'clause': clause, 'v': v,
+                             't': t, 'fault': f},
+                            f'{clause}: v{v} {t} whose result is {f}: '
+                            f'{text}',
+                            {'kind': 'server', 'v': v, 't': t, 'd': f,
+                             'ptype': o.get('ptype'), 'body': o.get('body')})
+                if not o['l1'] and o['sent'] != predicted:
+                    ctx.divergence(f'SftpSrv: v{v} {t} with result {f}: '
+                                   f'server sent {o["sent"]}, model '
+                                   f'{predicted}')
             else:
                 v = row[1]
                 if v not in sessions:
@@ -427,6 +478,12 @@ def main(ctx):
             s.close()
     finally:
         sw.close()
+    ctx.notes.append(f'results that cannot be encoded: replies by type '
+                     f'{unenc}')
+    ctx.require(planned.get('status_err', 0) > 200 and
+                planned.get('attrs', 0) > 20 and planned.get('name', 0) > 20,
+                f'un-encodable result cases do not cover both outcomes: '
+                f'{planned}')
     # positive controls: intact requests do earn their value replies
     for t, want in (('open', 'handle'), ('read', 'data'), ('stat', 'attrs'),
                     ('realpath', 'name'), ('x_statvfs', 'extreply'),
